@@ -101,4 +101,45 @@ theorem toomOdd_isMP (a0 b R : List Nat) (k : Nat) (ha : Limbs a0) (hb : Limbs b
   refine ⟨?_, Limbs_append.mpr ⟨Limbs_take hrpL _, sl⟩, by simp only [List.length_append, htl, sn]⟩
   rw [val_append, htl, ← key]; ring
 
+/-- What is NOT proved about mpn_toom42_mulmid: its even core (toom42_mulmid.c:66-205, `toomEven`) — given a correct half-size
+    middle product `recf`, the interpolation with the correction terms e0..e5, the neg flag, the in-place corrections and the
+    evaluation yield {rp, 2m+2} = MP({ap, 4m-1}, {bp, 2m}). -/
+def EvenCore : Prop :=
+  ∀ (recf : List Nat → List Nat → List Nat) (a b : List Nat) (m : Nat), 2 ≤ m → 2 * m ≤ B →
+    (∀ x y, Limbs x → Limbs y → y.length = m → 2 * m - 1 ≤ x.length → IsMP (recf x y) m x y) →
+    Limbs a → Limbs b → 2 * m ≤ b.length → 4 * m - 1 ≤ a.length → IsMP (toomEven recf a b m) (2 * m) a (b.take (2 * m))
+
+/-- the recursion and dispatch of mpn_toom42_mulmid (threshold test, `ap += n & 1`, odd row and diagonal) around the even core -/
+theorem toom42_of_core (hcore : EvenCore) (T : Nat) (hT : 4 ≤ T) :
+    ∀ (fuel : Nat) (a0 b : List Nat) (n : Nat), Limbs a0 → Limbs b → b.length = n → 4 ≤ n → n ≤ B → 2 * n - 1 ≤ a0.length →
+      n ≤ fuel → IsMP (toom42 T fuel a0 b n) n a0 b
+  | 0, _, _, n, _, _, _, h4, _, _, hf => by omega
+  | fuel + 1, a0, b, n, ha, hb, hbl, h4, hnB, hal, hf => by
+    have ih := toom42_of_core hcore T hT fuel
+    rw [toom42]
+    rw [if_neg (by omega)]
+    have hrec : ∀ x y, Limbs x → Limbs y → y.length = n / 2 → 2 * (n / 2) - 1 ≤ x.length →
+        IsMP (if n / 2 < T then mulmid_basecase x (2 * (n / 2) - 1) y else toom42 T fuel x y (n / 2)) (n / 2) x y := by
+      intro x y hx hy hyl hxl
+      split
+      · have := basecase_isMP x y (2 * (n / 2) - 1) hx hy (by omega) (by omega) hxl (by omega)
+        have e : 2 * (n / 2) - 1 - y.length + 1 = n / 2 := by omega
+        rw [e] at this; exact this
+      · exact ih x y (n / 2) hx hy hyl (by omega) (by omega) hxl (by omega)
+    have hR := hcore _ (a0.drop (n % 2)) b (n / 2) (by omega) (by omega) hrec (Limbs_drop ha _) hb (by omega)
+      (by rw [List.length_drop]; omega)
+    dsimp only
+    generalize toomEven _ (a0.drop (n % 2)) b (n / 2) = R at hR ⊢
+    split
+    · rename_i hodd
+      obtain ⟨k, rfl⟩ : ∃ k, n = k + 1 := ⟨n - 1, by omega⟩
+      have e : 2 * ((k + 1) / 2) = k := by omega
+      rw [hodd, e] at hR
+      exact toomOdd_isMP a0 b R k ha hb hbl (by omega) hnB hal hR
+    · rename_i heven
+      have h0 : n % 2 = 0 := by omega
+      have e : 2 * (n / 2) = n := by omega
+      rw [h0, e, List.drop_zero, List.take_of_length_le (by omega)] at hR
+      exact hR
+
 end Mpir.MulMid
